@@ -604,7 +604,7 @@ GROUPS["g16"] += [
     E("c18-unicode-upper", ["C18"], "harper-core/src/title_case.rs",
       "                output[word.span.start - start_index].to_ascii_uppercase();",
       "                output[word.span.start - start_index].to_uppercase().next().unwrap();",
-      "R-C18-caseonly:make_title_case:store"),
+      ["R-C18-caseonly:make_title_case:store", "R-C18-first:anchor-missing:upper-casing-store"]),
 ]
 
 GROUPS["g16"] += [
